@@ -45,8 +45,8 @@ RULE = ('T2: generated API-level messages (method tokens, Unicode path segments 
 	're-encoding; (15) all orders of {start line, fields, content, coding} and all subsets of constructor arguments; (16) contents SEARCHED so that each octet of the Adler-32 / CRC-32 / ISIZE of a '
 	'stream is HT LF VT FF CR SP or NUL, contents with such octets at their edges, 160 cheap multi-piece coded contents; (17) 2^k - 1, 2^k, 2^k + 1 for k = 9 .. 16 in every position that has a length. '
 	'Cases marked light (mass inputs of (16) / (17)): fed whole, octet by octet / around every line end and on a used machine, without two-call cuts and re-encodings, one in four through Coq. '
-	'Left out of the new classes, each named in notes/reports/C04.md: see excluded() (coding names not in lower case, control characters in the target, CONNECT); one-shot iterators that are neither '
-	'generators nor list iterators, memoryview / StringIO as content; refusals that leave the object changed (headers = <invalid>, uri = <invalid port>). '
+	'Left out of the new classes, each named in notes/reports/C04.md: see excluded() (coding names not in lower case, control characters in the target, CONNECT); '
+	'memoryview / StringIO as content (one-shot iterators that are neither generators nor list iterators: finding D64, repaired, now generated); refusals that leave the object changed (headers = <invalid>, uri = <invalid port>). '
 	'non-trivial = distinct (kind, outcome, source type, framing, coding, size class, version) classes')
 EXHAUSTIVE = {'quick': False, 'thorough': False}
 TRUSTED = [
@@ -660,12 +660,12 @@ def class_alias(rng, tier):
 	return out
 
 
-# Kept OUT of (11), reported in notes/reports/C04.md (observations on the tree as found, 2026-10-01): one-shot iterators that are neither a generator nor a list
-# iterator - iter(tuple), map(), filter(), itertools.chain(), reversed(), an object with __next__ - are accepted by Body.set ('any iterable returning bytes/unicode')
-# but Body.generator does not recognise them: len(body) in prepare() consumes them, the message goes out with the Content-Length of the content and NO body (the
-# peer waits for ever) or, chunked, with an empty body.  memoryview content (iterates as integers) and io.StringIO / io.BufferedReader content (fileno() raises) are
-# refused at prepare() with TypeError / UnsupportedOperation: nothing wrong is sent.  Field values given as int / bool become that many NUL octets (bytes(7)).
-BODY_VIAS = [('gen', 'iterlist'), ('gen', 'genfunc'), ('gen', 'zipgen'), ('gen', 'nested'), ('list', 'deque'), ('list', 'reiter'), ('list', 'dictkeys'), ('list', 'dict'), ('list', 'listsub')]
+# No longer kept out of (11): one-shot iterators that are neither a generator nor a list iterator - iter(tuple), map(), filter(), itertools.chain(), reversed(),
+# itertools.islice(), an object with __next__ - lost their content when prepare() computed the length (finding D64, found here, repaired in /repo 73ea79c, `fixed:`
+# entry in known_findings.d/C04.json): they now supply request and response bodies with the expectation of a generator (source kind gen, model SGen).
+# Still kept out (observations on the tree as found, notes/reports/C04.md): memoryview content (iterates as integers) and io.StringIO / io.BufferedReader content
+# (fileno() raises) are refused at prepare() with TypeError / UnsupportedOperation: nothing wrong is sent.  Field values given as int / bool become that many NUL octets.
+BODY_VIAS = [('gen', 'iterlist'), ('gen', 'genfunc'), ('gen', 'zipgen'), ('gen', 'nested'), ('gen', 'itertuple'), ('gen', 'map'), ('gen', 'chain'), ('gen', 'filter'), ('gen', 'reversed'), ('gen', 'islice'), ('gen', 'iterclass'), ('list', 'deque'), ('list', 'reiter'), ('list', 'dictkeys'), ('list', 'dict'), ('list', 'listsub')]
 
 
 def class_types(rng, tier):
